@@ -28,6 +28,7 @@
    it is an explicit hypothesis of C10_contour_vertices_near_surface. *)
 From Coq Require Import List Arith Permutation.
 From Coq Require Import ZArith Bool Reals.
+From LF Require Render.QuadTreeSep.
 From LF Require Import Render.Contours Render.ContoursSem Gen.MarchTables_gen Render.DCGrid2 Render.DCGrid2Sem.
 From LF Require Import Render.DCBoundary2.
 From LF Require Render.QuadTree Render.QuadTreeSem.
@@ -285,3 +286,89 @@ Print Assumptions C10_adaptive_example.
 Print Assumptions C10_collapse_tests_needed.
 Print Assumptions C10_boundary_clear_needed.
 Print Assumptions C10_collapse_tests_from_source.
+
+(* ------------------------------------------------------------------ *)
+(* C10 on ADAPTIVE quadtrees: the contour bounds the slice.  Statements only; proofs in
+   Render/QuadTreeSep.v (model Render/QuadTree.v, closedness Render/QuadTreeSem.v).
+   2D analogue of AdaptiveDC.C04_dc_adaptive_surface_at_sign_changes, with the converse, the
+   orientation and the crossing parity.  For every sign function [ins] of the lattice and every tree
+   consistent with it (collapsed cells next to finer ones, pruned cells of any size):
+   - every segment of the soup is the one segment emitted for two AMBIGUOUS LEAVES facing each other
+     across a minimal edge (a whole side of the smaller leaf) whose end points differ in sign;
+   - every pair of leaves facing each other across a minimal edge whose end points differ in sign
+     yields one segment, it is in the soup, and (clear region boundary) the soup has no duplicates;
+   - the segment is directed with the inside end of its minimal edge on its LEFT;
+   - a path along minimal edges crosses an odd number of segments iff its ends differ in sign. *)
+Module AdaptiveSep.
+Import QuadTreeSep.
+Local Open Scope Z_scope.
+
+
+Theorem C10_adaptive_segments_at_sign_changes : forall ins t k,
+  consistent ins t (0, 0) k ->
+  forall x, In x (contour_walk t) ->
+  exists A a b s k', (A = 1 \/ A = 2) /\
+    In a (leaves t [] (0, 0) k) /\ In b (leaves t [] (0, 0) k) /\ min_edge A a b s k' /\
+    is_ambig_leaf (pc_t a) = true /\ is_ambig_leaf (pc_t b) = true /\
+    ins s <> ins (adv A s (csize k')) /\
+    load A (pc_cell a) (pc_cell b) = [x] /\ x = seg_of ins A a b s k'.
+Proof. exact adaptive_segments_at_sign_changes. Qed.
+
+Theorem C10_adaptive_sign_changes_give_segments : forall ins t k,
+  consistent ins t (0, 0) k ->
+  forall A a b s k', (A = 1 \/ A = 2) ->
+    In a (leaves t [] (0, 0) k) -> In b (leaves t [] (0, 0) k) -> min_edge A a b s k' ->
+    ins s <> ins (adv A s (csize k')) ->
+    is_ambig_leaf (pc_t a) = true /\ is_ambig_leaf (pc_t b) = true /\
+    load A (pc_cell a) (pc_cell b) = [seg_of ins A a b s k'] /\
+    In (seg_of ins A a b s k') (contour_walk t) /\
+    (boundary_clear ins k -> NoDup (contour_walk t)).
+Proof. exact adaptive_sign_changes_give_segments. Qed.
+
+Theorem C10_adaptive_segments_oriented : forall ins A a b s k,
+  A = 1 \/ A = 2 -> ins s <> ins (adv A s (csize k)) ->
+  let x := seg_of ins A a b s k in
+  let fwd := if A =? 1 then ins s else ins (adv A s (csize k)) in
+  let pin := if ins s then s else adv A s (csize k) in
+  let pout := if ins s then adv A s (csize k) else s in
+  (fwd = true -> fst (fst x) = pc_p a /\ fst (snd x) = pc_p b) /\
+  (fwd = false -> fst (fst x) = pc_p b /\ fst (snd x) = pc_p a) /\
+  ins pin = true /\ ins pout = false /\
+  cross2 (if fwd then a_to_b A else vneg (a_to_b A)) (vsub pin pout) = csize k /\ 0 < csize k.
+Proof. exact adaptive_segments_oriented. Qed.
+
+Theorem C10_adaptive_contours_separate : forall ins t k,
+  consistent ins t (0, 0) k ->
+  forall l p q, Forall (step_ok t k) l -> joins p l q ->
+    incl (crossed l) (contour_walk t) /\
+    Nat.odd (length (crossed l)) = xorb (ins p) (ins q).
+Proof. exact adaptive_contours_separate. Qed.
+
+(* the correspondence is one to one: two minimal edges between leaves with the same segment coincide *)
+Theorem C10_adaptive_edge_of_segment_unique : forall t k ins A a b s k1 A' a' b' s' k2,
+  (A = 1 \/ A = 2) -> (A' = 1 \/ A' = 2) ->
+  In a (leaves t [] (0, 0) k) -> In b (leaves t [] (0, 0) k) ->
+  In a' (leaves t [] (0, 0) k) -> In b' (leaves t [] (0, 0) k) ->
+  min_edge A a b s k1 -> min_edge A' a' b' s' k2 ->
+  seg_of ins A a b s k1 = seg_of ins A' a' b' s' k2 ->
+  A = A' /\ a = a' /\ b = b' /\ s = s' /\ k1 = k2.
+Proof. exact adaptive_edge_of_segment_unique. Qed.
+
+
+(* NON-VACUITY on the notch example (levels 3, 2, 1, 0 side by side): the minimal edge (6,8)-(6,9) between the level-0
+   leaf [1;0;1;2] and the collapsed level-1 leaf [1;1;2] has a sign change, its segment is in the soup *)
+Theorem C10_adaptive_separation_example :
+  min_edge 2 notch_a notch_b (6, 8) 0 /\
+  In (seg_of ins_notch 2 notch_a notch_b (6, 8) 0) (contour_walk post_notch).
+Proof.
+  split; [exact notch_min_edge|].
+  destruct notch_sign_change_segment as (_ & _ & _ & _ & _ & _ & E & H). rewrite E. exact H.
+Qed.
+End AdaptiveSep.
+
+Print Assumptions AdaptiveSep.C10_adaptive_segments_at_sign_changes.
+Print Assumptions AdaptiveSep.C10_adaptive_sign_changes_give_segments.
+Print Assumptions AdaptiveSep.C10_adaptive_segments_oriented.
+Print Assumptions AdaptiveSep.C10_adaptive_contours_separate.
+Print Assumptions AdaptiveSep.C10_adaptive_edge_of_segment_unique.
+Print Assumptions AdaptiveSep.C10_adaptive_separation_example.
